@@ -321,20 +321,24 @@ def worker(args):
             mf = rng.choice(MIN_FREQS)
             cls = rng.choice(["Discretizer", "QuantitativeDiscretizer", "QualitativeDiscretizer", "ContinuousDiscretizer",
                               "OrdinalDiscretizer", "CategoricalDiscretizer"])
+            # a user-chosen name for the default group of rare categories, one fit in five
+            mk = {"str_default": rng.choice(["RARE", "autres"])} if rng.random() < 0.2 else {}
             try:
-                obj = fitgen.fit_discretizer(cls, ds, {"min_freq": mf})
+                obj = fitgen.fit_discretizer(cls, ds, {"min_freq": mf, **({"markers": mk} if mk else {})})
             except Exception as e:
                 stats["fit_errors"][type(e).__name__] = stats["fit_errors"].get(type(e).__name__, 0) + 1
                 continue
             if obj is None or not obj.features:
                 continue
+            if mk:
+                stats["custom_default_marker"] = stats.get("custom_default_marker", 0) + 1
             stats["cases"] += 1
             stats["classes"][cls] = stats["classes"].get(cls, 0) + 1
             fs = judge_object(cls, obj, ds, mf, stats)
-            fs += pipe.compare(drv, cls, obj, ds, mf, {}, stats["pipeline_model"])
+            fs += pipe.compare(drv, cls, obj, ds, mf, mk, stats["pipeline_model"])
             for f in fs:
                 f["case"] = {"X": fitgen.frame_wire(ds["X"]), "y": [fitgen.cell(v) for v in ds["y"].tolist()],
-                             "values_orders": ds["values_orders"], "class": cls, "min_freq": mf}
+                             "values_orders": ds["values_orders"], "class": cls, "min_freq": mf, "markers": mk}
             fails += fs
             sigs.add(json.dumps(fitgen.frame_wire(ds["X"]))[:3000] + cls)
             if sample is None:
